@@ -26,6 +26,7 @@ class Ref:
         self.state = 'data'; self.last_start = None
         self.stack = []          # open elements of the current foreign island: (name, ns, is_html_integration_point)
         self.text_start = None
+        self.cdata_in_ip = False
         self.ip_name_reuse = False   # an HTML element inside an integration point is named like an integration point element
     # ---- tree construction feedback -------------------------------------------------------------
     def adjusted_ns(self):
@@ -185,7 +186,12 @@ class Ref:
         if d[i:i + 2] == b"--": return self.comment(lt, i + 2)
         if lower(d[i:i + 7]) == b"doctype": return self.doctype(lt, i + 7)
         if d[i:i + 7] == b"[CDATA[":
-            if self.adjusted_ns() != 'html': self.state = 'cdata'; return i + 7
+            if self.adjusted_ns() != 'html':
+                # (a CDATA section whose parent is the integration point element itself: MathML mi/mo/mn/ms/mtext, SVG foreignObject/desc/title,
+                #  annotation-xml with an HTML encoding -- the adjusted current node is still a foreign element, so it IS a CDATA section)
+                nm, ns, html_ip = self.stack[-1]
+                if html_ip or (ns == 'mathml' and nm in MATHML_TEXT_IP): self.cdata_in_ip = True
+                self.state = 'cdata'; return i + 7
             return self.bogus_comment(lt, i)
         return self.bogus_comment(lt, i)
     def comment(self, lt, i):
